@@ -7,4 +7,4 @@ Require Import ZArith Arith ExtrOcamlBasic.
 Definition compiled_table : list brow := Eval vm_compute in compile_table RouteTable.table.
 Extraction "model.ml"
   Z.add Nat.add
-  handle handle_v0 dispatch serve router_level world_backend compiled_table.
+  handle handle_v0 dispatch serve router_level_possible world_backend compiled_table.
